@@ -573,8 +573,14 @@ def run_cmd_table(res, ast):
         if ch not in arms:
             res.bad("CMD-TABLE", key, INPLACE, f"no arm for `{ch}`")
             continue
-        ifs = [i for i in walk_t(arms[ch]["body"], "If") if pm.find_expr(i["cond"], "__v_c.memory.read(0)")]
-        okc = len(ifs) == 1 and pm.match_expr(ifs[0]["cond"], "__v_c.memory.read(0) " + op + " C::ZERO") is not None
+        ifs = [pm.canon(i) for i in walk_t(arms[ch]["body"], "If") if pm.find_expr(i["cond"], "__v_c.memory.read(0)")]
+        # after canonicalisation an if/else tests `== ZERO`; an else-less `if x != ZERO {..}` stays as written
+        want_ops = ("==",) if ch == "[" else ("!=", "==")
+        okc = len(ifs) == 1 and any(pm.match_expr(ifs[0]["cond"], "__v_c.memory.read(0) " + o_ + " C::ZERO") is not None for o_ in want_ops)
+        if okc and ch == "]" and pm.match_expr(ifs[0]["cond"], "__v_c.memory.read(0) == C::ZERO") is not None:
+            # `if cell == 0 {} else { jump back }`: read it as the else-less form
+            els_ = ifs[0].get("else")
+            ifs = [{**ifs[0], "then": els_["block"] if els_ and els_.get("t") == "BlockExpr" else {"t": "Block", "stmts": [], "sp": ifs[0]["sp"]}, "else": None}]
         extra = ""
         if okc and ch == "[":
             e = ifs[0]["else"]
